@@ -51,6 +51,8 @@ int __wrap_socket(int d, int t, int p) { if (g_fail_socket) { g_fail_socket = 0;
 int __wrap_bind(int fd, const struct sockaddr *a, socklen_t l) { if (g_fail_bind) { g_fail_bind = 0; errno = EADDRINUSE; return -1; } return __real_bind(fd, a, l); }
 int __wrap_listen(int fd, int n) { if (g_fail_listen) { g_fail_listen = 0; errno = EOPNOTSUPP; return -1; } return __real_listen(fd, n); }
 int __wrap_connect(int fd, const struct sockaddr *a, socklen_t l) { if (g_fail_connect) { g_fail_connect = 0; errno = ECONNREFUSED; return -1; } return __real_connect(fd, a, l); }
+int __real_dup(int); static int g_fail_dup;
+int __wrap_dup(int fd) { if (g_fail_dup) { g_fail_dup = 0; errno = EMFILE; return -1; } return __real_dup(fd); }
 int __wrap_accept(int fd, struct sockaddr *a, socklen_t *l) { if (g_fail_accept) { g_fail_accept = 0; errno = ECONNABORTED; return -1; } return __real_accept(fd, a, l); }
 
 static void setpath(void)
@@ -156,7 +158,7 @@ static void st_case(uint64_t i, void *ctx)
 enum { O_L, O_C, O_A, O_D, NOBJ };
 static const char *ON[NOBJ] = { "listener", "client", "accepted", "duplicate" };
 typedef struct { spif_socket_t o[NOBJ]; int owns[NOBJ]; int opened[NOBJ]; int listening, connected, pending, peer_open; int fd0; int dup_of; int lgen, pending_gen; } st_t;    /* lgen: which listening description the listener object holds; a queued connection stays with the description it reached */
-enum { K_NEW, K_OPEN, K_OPEN_FAIL_SOCKET, K_OPEN_FAIL_BIND, K_OPEN_FAIL_LISTEN, K_OPEN_FAIL_CONNECT, K_ACCEPT, K_ACCEPT_FAIL, K_NBIO, K_SEND, K_RECV, K_CLOSE, K_DUP, K_DEL };
+enum { K_NEW, K_OPEN, K_OPEN_FAIL_SOCKET, K_OPEN_FAIL_BIND, K_OPEN_FAIL_LISTEN, K_OPEN_FAIL_CONNECT, K_ACCEPT, K_ACCEPT_FAIL, K_NBIO, K_SEND, K_RECV, K_CLOSE, K_DUP, K_DEL, K_ACCEPT_NODUP, K_DUP_FAIL };
 typedef struct { int k, obj; } op_t;
 static op_t OPS[64]; static int NOPS;
 static void build_ops(void)
@@ -166,17 +168,18 @@ static void build_ops(void)
     OPS[NOPS++] = (op_t) { K_OPEN, O_L }; OPS[NOPS++] = (op_t) { K_OPEN, O_C };
     OPS[NOPS++] = (op_t) { K_OPEN_FAIL_SOCKET, O_L }; OPS[NOPS++] = (op_t) { K_OPEN_FAIL_SOCKET, O_C };
     OPS[NOPS++] = (op_t) { K_OPEN_FAIL_BIND, O_L }; OPS[NOPS++] = (op_t) { K_OPEN_FAIL_LISTEN, O_L }; OPS[NOPS++] = (op_t) { K_OPEN_FAIL_CONNECT, O_C };
-    OPS[NOPS++] = (op_t) { K_ACCEPT, O_L }; OPS[NOPS++] = (op_t) { K_ACCEPT_FAIL, O_L };
+    OPS[NOPS++] = (op_t) { K_ACCEPT, O_L }; OPS[NOPS++] = (op_t) { K_ACCEPT_FAIL, O_L }; OPS[NOPS++] = (op_t) { K_ACCEPT_NODUP, O_L };
     OPS[NOPS++] = (op_t) { K_NBIO, O_C };
     OPS[NOPS++] = (op_t) { K_SEND, O_C }; OPS[NOPS++] = (op_t) { K_SEND, O_A };
     OPS[NOPS++] = (op_t) { K_RECV, O_A }; OPS[NOPS++] = (op_t) { K_RECV, O_D };
     for (int o = 0; o < NOBJ; o++) OPS[NOPS++] = (op_t) { K_CLOSE, o };
     for (int o = 0; o < 3; o++) OPS[NOPS++] = (op_t) { K_DUP, o };
+    for (int o = 0; o < 3; o++) OPS[NOPS++] = (op_t) { K_DUP_FAIL, o };
     for (int o = 0; o < NOBJ; o++) OPS[NOPS++] = (op_t) { K_DEL, o };
 }
 static void op_name(int i, char *b, size_t n)
 {
-    static const char *kn[] = { "new", "open", "open[socket() fails]", "open[bind() fails]", "open[listen() fails]", "open[connect() fails]", "accept", "accept[accept() fails]", "set_nbio", "send(\"hi\")", "recv", "close", "dup", "del" };
+    static const char *kn[] = { "new", "open", "open[socket() fails]", "open[bind() fails]", "open[listen() fails]", "open[connect() fails]", "accept", "accept[accept() fails]", "set_nbio", "send(\"hi\")", "recv", "close", "dup", "del", "accept[no descriptor to spare: dup() fails]", "dup[dup() fails]" };
     snprintf(b, n, "%s(%s)", kn[OPS[i].k], ON[OPS[i].obj]);
 }
 static void *fresh(void) { setpath(); st_t *s = calloc(1, sizeof *s); s->fd0 = lowest_free_fd(); s->dup_of = -1; unlink(g_path); return s; }
@@ -188,12 +191,13 @@ static int enabled(void *vs, int op)
     case K_OPEN_FAIL_SOCKET: return x != NULL && !s->owns[o->obj];                          /* socket() is only called while the object has no descriptor */
     case K_OPEN: case K_OPEN_FAIL_BIND: case K_OPEN_FAIL_LISTEN: case K_OPEN_FAIL_CONNECT:
         return x != NULL && !s->opened[o->obj];                                             /* not opened yet, closed again, or left half-open by a failed attempt (a retry) */
-    case K_ACCEPT: case K_ACCEPT_FAIL: return x != NULL && s->listening && s->owns[O_L] && s->pending && s->pending_gen == s->lgen && s->o[O_A] == NULL;
+    case K_ACCEPT: case K_ACCEPT_FAIL: case K_ACCEPT_NODUP: return x != NULL && s->listening && s->owns[O_L] && s->pending && s->pending_gen == s->lgen && s->o[O_A] == NULL;
     case K_NBIO: return x != NULL && s->owns[o->obj];
     case K_SEND: return x != NULL && s->owns[o->obj] && (o->obj == O_C ? 1 : 1);
     case K_RECV: return x != NULL && s->owns[o->obj] && (o->obj == O_A || s->dup_of == O_A);   /* only non-blocking descriptors are read */
     case K_CLOSE: return x != NULL && s->owns[o->obj];
     case K_DUP: return x != NULL && s->o[O_D] == NULL;
+    case K_DUP_FAIL: return x != NULL && s->o[O_D] == NULL && s->owns[o->obj];         /* dup() is only called for an object with a descriptor */
     case K_DEL: return x != NULL;
     }
     return 0;
@@ -235,10 +239,10 @@ static void apply(void *vs, int op)
         if (r && o->obj == O_L) { s->listening = 1; if (!retry) s->lgen++; spif_socket_set_nbio(x); }      /* a fresh descriptor was bound to the (unlinked and re-created) path */
         if (r && o->obj == O_C) { s->connected = 1; s->pending = 1; s->pending_gen = s->lgen; s->peer_open = 1; }
         break; }
-    case K_ACCEPT: case K_ACCEPT_FAIL: {
-        g_fail_accept = o->k == K_ACCEPT_FAIL;
+    case K_ACCEPT: case K_ACCEPT_FAIL: case K_ACCEPT_NODUP: {
+        g_fail_accept = o->k == K_ACCEPT_FAIL; g_fail_dup = o->k == K_ACCEPT_NODUP;       /* whether accept duplicates anything is its own business; if it does, that call fails */
         spif_socket_t a = spif_socket_accept(x);
-        g_fail_accept = 0;
+        g_fail_accept = 0; g_fail_dup = 0;
         if (o->k == K_ACCEPT_FAIL) { if (a) { FAIL(site, "model:return", shape, "accept returned an object although accept() failed"); spif_socket_del(a); } }
         else if (!a) FAIL(site, "model:return", shape, "accept returned NULL with a connection pending");
         else { s->o[O_A] = a; s->owns[O_A] = 1; s->opened[O_A] = 1; s->pending = 0; }
@@ -255,6 +259,11 @@ static void apply(void *vs, int op)
         break;
     case K_DUP: { spif_socket_t d = spif_socket_dup(x); if (!d) FAIL(site, "model:return", shape, "dup returned NULL"); else { s->o[O_D] = d; s->owns[O_D] = s->owns[o->obj]; s->opened[O_D] = s->opened[o->obj]; s->dup_of = o->obj;
             if (s->owns[o->obj] && d->fd == x->fd) FAIL(site, "model:shared-descriptor", shape, "the duplicate uses the same descriptor number as the original"); } break; }
+    case K_DUP_FAIL: { g_fail_dup = 1; spif_socket_t d = spif_socket_dup(x); int consumed = !g_fail_dup; g_fail_dup = 0;
+        /* the copy could not get a descriptor of its own: it exists (or not) without one; the original keeps its own */
+        if (d) { s->o[O_D] = d; s->owns[O_D] = consumed ? 0 : s->owns[o->obj]; s->opened[O_D] = consumed ? 0 : s->opened[o->obj]; s->dup_of = consumed ? -1 : o->obj;
+            if (d->fd >= 0 && d->fd == x->fd) FAIL(site, "model:shared-descriptor", shape, "the duplicate uses the same descriptor number as the original"); }
+        break; }
     case K_DEL: if (!spif_socket_del(x)) FAIL(site, "model:return", shape, "del returned FALSE"); s->o[o->obj] = NULL; s->owns[o->obj] = 0; s->opened[o->obj] = 0;
         if (o->obj == O_L) { s->listening = 0; s->pending = 0; }      /* a queued connection belongs to the listening description, not to a later one */
         if (o->obj == O_D) s->dup_of = -1;
@@ -289,7 +298,7 @@ int main(int argc, char **argv)
     int depth = (int) mc_arg_int("depth", mc_thorough() ? 7 : 5);
     build_ops();
     mc_info("alphabet", "transfer: payload lengths {1,2,4095,4096,4097,8192,16385,20000} x {client closes, stays open} x E3 schedules over the first %d read/write calls, <= %d deviations; "
-            "storms: 30/101/300 EINTR (and EAGAIN on write) failures before every call, 1500-byte moves; transfers with descriptor 0 closed; lifecycle: %d opcodes on listener/client/accepted/duplicate incl. injected socket/bind/listen/connect/accept failures, depth <= %d; descriptor census by lowest-free-descriptor", g_k, g_dev, NOPS, depth);
+            "storms: 30/101/300 EINTR (and EAGAIN on write) failures before every call, 1500-byte moves; transfers with descriptor 0 closed; lifecycle: %d opcodes on listener/client/accepted/duplicate incl. injected socket/bind/listen/connect/accept/dup failures, depth <= %d; descriptor census by lowest-free-descriptor", g_k, g_dev, NOPS, depth);
     /* every worker gets its own socket path (the path is fixed up after fork through the pid) */
     (void) td; setpath();
     if (!mc_arg("only", NULL) || !strcmp(mc_arg("only", ""), "transfer")) {
